@@ -271,6 +271,143 @@ static void parse_set (const char *spec, int *out, int *n, int limit, int (*look
   free (d);
 }
 
+
+/* ------------------------------------------------------------------ part "api": the driver's own entry points, called from C as
+ * backend.c / comm.c / call_out.c do, on live and on already destructed targets, with the function present, missing, or raising at
+ * every instruction boundary k; each followed by the register snapshot comparison and the probe evaluation */
+enum { A_SAFE_APPLY, A_APPLY, A_SAFE_CFP, A_CFP, A_APPLY_MASTER, A_SAFE_APPLY_MASTER, NAPI };
+static const char *api_name[] = { "safe_apply", "apply", "safe_call_function_pointer", "call_function_pointer", "apply_master_ob", "safe_apply_master_ob" };
+static const char *tgt_name[] = { "live-target", "destructed-target" };
+static const char *fnk_name[] = { "function-exists", "function-missing", "functional-funptr" };
+typedef struct { int api, tgt, fnk; int n; int ok; } apisc_t;
+static apisc_t *apisc; static long napisc; static long *apicum;
+static object_t *api_ob; static funptr_t *api_fp; static svalue_t *api_ret;
+
+static vm_snap api_in0, api_in1; static int api_returned;
+static void api_do (void *p) {
+  apisc_t *sc = p;
+  /* the state is compared right where the driver's own callers continue, inside the enclosing error context (backend() never pops
+   * its context, so a context the callee forgot to pop stays linked there; the harness's own pop_context() would hide it) */
+  vm_snap_take (&api_in0);
+  array_t *a = allocate_array (2);
+  const char *fn = sc->fnk == 1 ? "nosuch_function" : (sc->api >= A_APPLY_MASTER ? "api_ok" : "ok");
+  push_refed_array (a);
+  switch (sc->api) {
+  case A_SAFE_APPLY: api_ret = safe_apply (fn, api_ob, 1, ORIGIN_DRIVER); break;
+  case A_APPLY: api_ret = apply (fn, api_ob, 1, ORIGIN_DRIVER); break;
+  case A_SAFE_CFP: api_ret = safe_call_function_pointer (api_fp, 1); break;
+  case A_CFP: api_ret = call_function_pointer (api_fp, 1); break;
+  case A_APPLY_MASTER: api_ret = apply_master_ob (fn, 1); break;
+  default: api_ret = safe_apply_master_ob (fn, 1); break;
+  }
+  vm_snap_take (&api_in1);
+  api_returned = 1;
+}
+static void api_destruct (void *o) { destruct_object ((object_t *) o); }
+
+static void api_run (apisc_t *sc, long k, int measuring) {
+  vm_snap s0, s1; char scope[120];
+  snprintf (vm_ctx_desc, sizeof vm_ctx_desc, "api %s %s %s k=%ld", api_name[sc->api], tgt_name[sc->tgt], fnk_name[sc->fnk], k);
+  if (!measuring) vx_obs ("%s", vm_ctx_desc);
+  api_ob = hx_load ("/c05/api", 0);
+  if (!api_ob) { if (!measuring) vm_fail ("C05:harness:api-object", "cannot load /c05/api: %s", hx_last_error); return; }
+  add_ref (api_ob, "harness");
+  api_fp = 0;
+  if (sc->api == A_SAFE_CFP || sc->api == A_CFP) {
+    svalue_t *r = hx_apply (api_ob, sc->fnk == 2 ? "getfn" : "getfp", 0);
+    if (!r || r->type != T_FUNCTION) { if (!measuring) vm_fail ("C05:harness:api-funptr", "no function pointer: %s", hx_last_error); return; }
+    api_fp = r->u.fp; api_fp->hdr.ref++;
+  }
+  if (sc->tgt == 1) hx_guard (api_destruct, api_ob);
+  safe_apply_master_ob ("clear_errors", 0);
+  vm_snap_take (&s0);
+  vm_ignore_fields = measuring ? ~0u : 0; vm_changed_fields = 0;
+  vm_hook_arm (k, k ? VM_INJ_ERROR : VM_INJ_NONE, vw_ec_depth () + 1);
+  api_ret = 0; api_returned = 0;
+  int err = hx_guard (api_do, sc);
+  vm_hook_disarm ();
+  vm_snap_take (&s1);
+  sc->n = (int) vm_insn; sc->ok = 1;
+  if (measuring) return;
+  vx_obs ("  -> %s%.150s insns=%ld", err ? "ERROR " : (api_ret ? "value" : "0"), err ? hx_last_error : "", vm_insn);
+  if (k && !vm_fired) vm_fail ("C05:harness:fault-not-reached", "dispatch %ld was never reached [%s]", k, vm_ctx_desc);
+  if (k && vm_fired) vx_count (0, 1);
+  if (!k) vx_count (0, 1);
+  snprintf (scope, sizeof scope, "api:%s:%s", api_name[sc->api], tgt_name[sc->tgt]);
+  if (vm_selftest == 4) s1.ecd++;
+  vm_snap_diff (&s0, &s1, 0, 1, scope, vm_ctx_desc);
+  if (api_returned) {
+    char scope2[140]; snprintf (scope2, sizeof scope2, "api:%s:%s:at-return", api_name[sc->api], tgt_name[sc->tgt]);
+    vm_snap_diff (&api_in0, &api_in1, 0, 1, scope2, vm_ctx_desc);
+  }
+  int safe = sc->api == A_SAFE_APPLY || sc->api == A_SAFE_CFP || sc->api == A_SAFE_APPLY_MASTER;
+  if (safe && err) {
+    char key[160]; snprintf (key, sizeof key, "C05:api:%s:%s:error-escaped-the-safe-call", api_name[sc->api], tgt_name[sc->tgt]);
+    vm_fail (key, "an error (%.100s) left %s() [%s]", hx_last_error, api_name[sc->api], vm_ctx_desc);
+  }
+  if (safe && k && vm_fired && api_ret) {
+    char key[160]; snprintf (key, sizeof key, "C05:api:%s:%s:value-returned-after-error", api_name[sc->api], tgt_name[sc->tgt]);
+    vm_fail (key, "%s() returned a value although the function raised an error [%s]", api_name[sc->api], vm_ctx_desc);
+  }
+  char pt[16384];
+  vm_clear_hooks ();
+  vm_probe (pt, sizeof pt);
+  if (strcmp (pt, ref_probe)) {
+    char tag[60], msg[400], key[120];
+    first_diff (ref_probe, pt, tag, sizeof tag, msg, sizeof msg);
+    snprintf (key, sizeof key, "C05:probe:%s", tag);
+    vm_fail (key, "probe transcript differs from a fresh driver: %s [%s]", msg, vm_ctx_desc);
+  }
+}
+
+static void api_decode (long idx, long *s, long *k) {
+  long lo = 0, hi = napisc;
+  while (hi - lo > 1) { long mid = (lo + hi) / 2; if (apicum[mid] <= idx) lo = mid; else hi = mid; }
+  *s = lo; *k = idx - apicum[lo];
+}
+static void api_elem1 (long idx) { long s, k; api_decode (idx, &s, &k); api_run (&apisc[s], k, 0); }
+static void api_elem (long idx) {
+  long s, k; api_decode (idx, &s, &k);
+  snprintf (vm_ctx_desc, sizeof vm_ctx_desc, "api %s %s %s k=%ld", api_name[apisc[s].api], tgt_name[apisc[s].tgt], fnk_name[apisc[s].fnk], k);
+  vm_run_isolated (api_elem1, idx);
+}
+static void api_describe (long idx, char *buf, size_t len) {
+  long s, k; api_decode (idx, &s, &k);
+  snprintf (buf, len, "api=%d/%d/%d/%ld\n%s(...) on a %s, %s, fault at dispatch %ld of %d", apisc[s].api, apisc[s].tgt, apisc[s].fnk, k,
+            api_name[apisc[s].api], tgt_name[apisc[s].tgt], fnk_name[apisc[s].fnk], k, apisc[s].n);
+}
+static void api_meas_child (void *p) { api_run ((apisc_t *) p, 0, 1); }
+
+static int api_main (int argc, char **argv) {
+  const char *one = vx_opt ("api", 0);
+  int oa = -1, ot = -1, of = -1; long ok = -1;
+  if (one && sscanf (one, "%d/%d/%d/%ld", &oa, &ot, &of, &ok) != 4) { fprintf (stderr, "bad --api\n"); return 2; }
+  apisc = mmap (0, sizeof (apisc_t) * 64, PROT_READ | PROT_WRITE, MAP_SHARED | MAP_ANONYMOUS, -1, 0);
+  for (int a = 0; a < NAPI; a++)
+    for (int t = 0; t < 2; t++)
+      for (int f = 0; f < 3; f++) {
+        int fp = a == A_SAFE_CFP || a == A_CFP, ms = a >= A_APPLY_MASTER;
+        if (ms && t) continue;                 /* the master is never a destructed target */
+        if (fp && f == 1) continue;            /* a function pointer cannot name a missing function */
+        if (!fp && f == 2) continue;
+        if (one && !(a == oa && t == ot && f == of)) continue;
+        apisc[napisc].api = a; apisc[napisc].tgt = t; apisc[napisc].fnk = f; napisc++;
+      }
+  for (long i = 0; i < napisc; i++) { apisc[i].ok = 0; in_child (api_meas_child, &apisc[i]); if (!apisc[i].ok) apisc[i].n = 0; }
+  apicum = calloc ((size_t) napisc + 1, sizeof *apicum);
+  long tot = 0;
+  for (long i = 0; i < napisc; i++) { apicum[i] = tot; tot += apisc[i].n + 1; }
+  apicum[napisc] = tot;
+  if (one) { apicum[0] = -ok; tot = 1; }     /* element 0 = that k */
+  fprintf (stderr, HNAME ": part=api scenarios=%ld elements=%ld\n", napisc, tot);
+  vx_count_name (0, "fault_raised"); vx_count_name (15, "failure_records_suppressed_as_duplicates");
+  vm_shared_init ();
+  vx_set_enum (tot, api_elem, api_describe);
+  int rc = vx_run (argc, argv, 0);
+  if (vx_opt ("out", 0)) { char kp[PATH_MAX]; snprintf (kp, sizeof kp, "%s.keys", vx_opt ("out", 0)); vm_write_key_totals (kp); }
+  return rc;
+}
+
 /* representatives of each frame class for the depth-3 pass */
 #define MINI "call,call_other,lfunp,catch,filter_fp,sort_fp,create_clone,m_object_name"
 #define CORE "call,inherited,call_other,lfunp,functional,efunp,boundfp,simul_efun,catch,filter_fp,sort_fp,map_mapping,create_load,create_clone,init_move,move_or_destruct,verb_string,m_valid_read,m_object_name"
@@ -304,6 +441,11 @@ int main (int argc, char **argv) {
   vx_count_name (0, "fault_raised"); vx_count_name (1, "caught_by_catch"); vx_count_name (2, "reached_driver");
   vx_count_name (3, "swallowed_by_safe_apply"); vx_count_name (4, "catch_points_checked");
   vm_preload_helpers ();
+  if (!strcmp (vx_opt ("master", "plain"), "catch")) {
+    /* a master whose error_handler() itself evaluates catch(error(...)) and a successful catch before it logs */
+    copy_and_push_string ("eh_catch"); push_number (1);
+    safe_apply_master_ob ("set_policy", 2);
+  }
 
   if (pipe (ref_pipe)) return 2;
   int ref_st = in_child (ref_child, 0);
@@ -317,6 +459,7 @@ int main (int argc, char **argv) {
     return vx_run (argc, argv, 0);
   }
   if (vx_opt ("show-probe", 0)) fprintf (stderr, "%s", ref_probe);
+  if (!strcmp (part, "api")) return api_main (argc, argv);
 
   const char *es = vx_opt ("elem", 0);
   if (es) {
